@@ -27,6 +27,36 @@ CHECKS = {
              "file of the repository and on ill-formed UTF-8; each returned token stream is judged by partition/position laws computed from the "
              "source text, by an independent lexer for kinds and by the indentation rule.",
         note="Trusts: the independent lexer (written from the lexical rules, keyword table = snapshot of the pinned keyword list); indent of tokens spanning lines is not judged."),
+    "C14": dict(
+        technique="runtime monitoring: law monitor over the real ddptypes predicates (exhaustive finite closure) + front-end acceptance monitor vs the stated assignability rule",
+        category="exploration", design="§4 C14",
+        text="Held-on-observed with an exhaustively enumerated core: ddpprobe builds the closure of {primitives, Variable, two same-named Kombinationen} under "
+             "list-of/alias-of/definition-of (depth 3: 1 404 types, all ordered pairs, all triples; depth 4 pairs in thorough) with the real constructors and checks "
+             "Equal/DeepEqual/GetUnderlying/Is* against an independent canonical form; at parser level every ordered pair of the syntax-expressible closure is put "
+             "through initialisation, assignment and cast by the real front end and compared with the property's three-clause rule.",
+        note="Trusts: the harness's canonical form (derived from its own construction terms); Standardwert expressions as type-S sources; a seeded sample is re-judged in Python."),
+    "C16": dict(
+        technique="runtime monitoring: repetition monitor (N in-process parses + fresh kddp processes) with an order-injection hook at the map-iteration site",
+        category="exploration", design="§4 C16",
+        text="Held-on-observed: the same sources are compiled repeatedly - 20/50 times in one process under Go's natural map randomisation, 8/40 times with the "
+             "verifhook.Order permutation hook, and 3-5 times as fresh kddp processes - and verdict, the full diagnostics sequence, call resolutions and the "
+             "executable's behaviour must be identical. Workload families target every map-ordered site found in the code (import order, argument maps, generic "
+             "maps, linker dependencies, alias ties, diamonds).",
+        note="Trusts: every permutation injected at the hook is a legal Go map order; IR text is not compared; unhooked sites are only sampled by natural randomisation."),
+    "C19": dict(
+        technique="runtime monitoring: reference-model monitor on the output of compiled programs (independent literal decoder)",
+        category="exploration", design="§4 C19",
+        text="Held-on-observed: thousands of integer, decimal-comma, character, text (all texts up to length 3/4 over an escape-heavy fragment alphabet), truth-value "
+             "and list literals are printed by programs compiled with the real kddp and compared with Python's int / correctly rounded float / an independent escape "
+             "decoder; invalid literals must be rejected by the front end and by the CLI.",
+        note="Trusts: Python float() as correctly rounded reference; Kommazahl observed through %.16g rendering; locale shim."),
+    "C20": dict(
+        technique="runtime monitoring: model-based history checking of alias_trie/ordered_map with the parser's own comparators + duplicate/callability monitor on programs",
+        category="exploration", design="§4 C20",
+        text="Held-on-observed: ddpprobe drives the real alias trie exactly as the parser does (Contains/Insert/Search/Copy with tokenEqual/tokenLess) through all insertion "
+             "orders of <= 4 (thorough <= 6) keys and random histories of <= 12 keys over a vocabulary with look-alike types, against a plain-list model; generated programs "
+             "declare colliding aliases in one file or across modules in permuted orders: duplicates must be diagnosed, declared aliases must stay callable.",
+        note="Trusts: the plain-list model with tokenEqual as the notion of 'coincide'; intra-declaration alias collisions are outside the property."),
 }
 
 NOT_YET = {}
